@@ -192,6 +192,17 @@ def check(ctx, case):
                 ("SMSimfile(file=iter)", lambda: SMSimfile(file=iter(text.splitlines(keepends=True)), strict=strict), text, "sm"),
                 ("SSCSimfile(file=iter)", lambda: SSCSimfile(file=iter(text.splitlines(keepends=True)), strict=strict), text, "ssc"),
             ]
+            if strict:
+                # the documented default is strict parsing: the same calls without the argument
+                entries += [
+                    ("loads(default)", lambda: simfile.loads(text), text, "auto"),
+                    ("load(StringIO, default)", lambda: simfile.load(io.StringIO(text)), text, "auto"),
+                    ("SMSimfile(string, default)", lambda: SMSimfile(string=text), text, "sm"),
+                    ("SSCSimfile(file=StringIO, default)", lambda: SSCSimfile(file=io.StringIO(text)), text, "ssc"),
+                    ("open(x.txt, default)", lambda: simfile.open(paths["x.txt"]), ftext, "auto"),
+                    ("open(x.ssc, default)", lambda: simfile.open(paths["x.ssc"]), ftext, "ssc"),
+                    ("open_with_detected_encoding(x.sm, default)", lambda: simfile.open_with_detected_encoding(paths["x.sm"])[0], ftext, "sm"),
+                ]
             for name in FILE_NAMES:
                 low = name.lower()
                 fmt = "ssc" if low.endswith(".ssc") else ("sm" if low.endswith(".sm") else "auto")
